@@ -20,7 +20,7 @@ EXPLANATION = (
     "smt_expr_to_str ('\"' -> ESC) is undone by every reader before z3.parse_smt2_string (ESC -> '\"\"'), and no str.replace(a, b) in a reader is "
     "a no-op; the state keys read in SMTFormula.__setstate__ are attributes that __init__/__getstate__ provide; (S4) the CLI's JSON tree writer "
     "(json.dumps(tree.to_parse_tree())) and reader (json.loads -> DerivationTree.from_parse_tree) are inverse on the None-vs-[] children distinction. "
-    "NOT decided: equality of the round trip for every string (non-ASCII literals go through Z3's parser, whose byte handling is not visible in ISLa's code)."
+    "(S5) every text handed to z3.parse_smt2_string is escaped by smt_escape_non_ascii and every as_string() is unescaped. NOT decided: equality of the round trip for every string."
 )
 
 
